@@ -105,6 +105,39 @@ static void accept_%(m)s(const char *type, const char *variant, int ws, void *bu
     R(type, variant, "%(m)s_as_root_with_type_hash", %(m)s_as_root_with_type_hash(body, %(m)s_type_hash) != 0, want);
 }
 ''' % {'m': m})
+    # every generated verify wrapper that takes / implies a FILE identifier, on plain and size-prefixed roots
+    for n, kind, h in types:
+        out.append('''
+static void fileid_%(n)s(void)
+{
+    void *buf; size_t size; int ws;
+    for (ws = 0; ws < 2; ++ws) {
+        const char *vn = ws ? "fileid_with_size" : "fileid";
+        flatcc_builder_reset(B);
+        if (ws ? !%(n)s_create_as_root_with_size(B, 7) : !%(n)s_create_as_root(B, 7)) { R("%(n)s", vn, "build", 0, 1); continue; }
+        buf = flatcc_builder_finalize_aligned_buffer(B, &size);
+        R("%(n)s", vn, "stored_identifier_is_file_identifier", rd32((uint8_t *)buf + (ws ? 8 : 4)) == 0x44434241u, 1);
+        if (ws) {
+            R("%(n)s", vn, "verify_as_root_with_size", %(n)s_verify_as_root_with_size(buf, size) == 0, 1);
+            R("%(n)s", vn, "verify_as_root_with_identifier_and_size(ABCD)", %(n)s_verify_as_root_with_identifier_and_size(buf, size, "ABCD") == 0, 1);
+            R("%(n)s", vn, "verify_as_root_with_identifier_and_size(null)", %(n)s_verify_as_root_with_identifier_and_size(buf, size, 0) == 0, 1);
+            R("%(n)s", vn, "verify_as_root_with_identifier_and_size(empty)", %(n)s_verify_as_root_with_identifier_and_size(buf, size, "") == 0, 1);
+            R("%(n)s", vn, "verify_as_root_with_identifier_and_size(ABCE)", %(n)s_verify_as_root_with_identifier_and_size(buf, size, "ABCE") == 0, 0);
+            R("%(n)s", vn, "verify_as_typed_root_with_size", %(n)s_verify_as_typed_root_with_size(buf, size) == 0, 0);
+        } else {
+            R("%(n)s", vn, "verify_as_root", %(n)s_verify_as_root(buf, size) == 0, 1);
+            R("%(n)s", vn, "verify_as_root_with_identifier(ABCD)", %(n)s_verify_as_root_with_identifier(buf, size, "ABCD") == 0, 1);
+            R("%(n)s", vn, "verify_as_root_with_identifier(null)", %(n)s_verify_as_root_with_identifier(buf, size, 0) == 0, 1);
+            R("%(n)s", vn, "verify_as_root_with_identifier(empty)", %(n)s_verify_as_root_with_identifier(buf, size, "") == 0, 1);
+            R("%(n)s", vn, "verify_as_root_with_identifier(ABCE)", %(n)s_verify_as_root_with_identifier(buf, size, "ABCE") == 0, 0);
+            R("%(n)s", vn, "verify_as_typed_root", %(n)s_verify_as_typed_root(buf, size) == 0, 0);
+            R("%(n)s", vn, "as_root", %(n)s_as_root(buf) != 0, 1);
+            R("%(n)s", vn, "as_root_with_identifier(ABCE)", %(n)s_as_root_with_identifier(buf, "ABCE") != 0, 0);
+        }
+        flatcc_builder_aligned_free(buf);
+    }
+}
+''' % {'n': n})
     # nested builders
     for i, (n, kind, h) in enumerate(types):
         d = {'n': n, 'f': 'P_n%d' % i, 'i': i}
@@ -146,6 +179,7 @@ static void *nested_%(n)s(int variant, size_t *size)
 ''' % d)
     out.append('int main(void)\n{\n    void *buf; size_t size; int v; P_table_t p; const uint8_t *nb;\n    flatcc_builder_init(B);\n')
     for i, (n, kind, h) in enumerate(types):
+        out.append('    fileid_%s();\n' % n)
         out.append('    for (v = 0; v < 6; ++v) {\n        static const char *vn[] = { "create", "create_with_size", "start_end", "start_end_with_size", "clone", "clone_with_size" };\n'
                    '        int ws = v & 1;\n        buf = build_%s(v, &size);\n        if (!buf) { R("%s", vn[v], "build", 0, 1); continue; }\n'
                    '        R("%s", vn[v], "stored_identifier_is_type_hash", rd32((uint8_t *)buf + (ws ? 8 : 4)) == (uint32_t)%s_type_hash, 1);\n' % (n, n, n, n))
@@ -160,7 +194,7 @@ static void *nested_%(n)s(int variant, size_t *size)
                    '        p = P_as_root(buf);\n        nb = p ? (const uint8_t *)P_n%d_get(p) : 0;\n'
                    '        R("%s", vn[v], "nested_stored_identifier_is_type_hash", nb && rd32(nb + 4) == (uint32_t)%s_type_hash, 1);\n'
                    '        R("%s", vn[v], "P_n_as_typed_root", p && P_n%d_as_typed_root(p) != 0, 1);\n'
-                   '        R("%s", vn[v], "P_n_as_root", p && P_n%d_as_root(p) != 0, 1);\n'
+                   '        R("%s", vn[v], "P_n_as_root", p && P_n%d_as_root(p) != 0, 0);   /* the schema has a file identifier: a nested TYPED root does not carry it */\n'
                    '        flatcc_builder_aligned_free(buf);\n    }\n'
                    % ('start_end_2' if kind == 'table' else 'create', n, n, n, i, n, n, n, i, n, i))
     out.append('    flatcc_builder_clear(B);\n    return 0;\n}\n')
@@ -186,7 +220,7 @@ def typed_roots(ctx):
         decls.append('namespace;\ntable P {\n')
         for i, (ns, nm, kind, h, pos) in enumerate(types):
             decls.append('  n%d:[ubyte](nested_flatbuffer:"%s");\n' % (i, (ns + '.' if ns else '') + nm))
-        decls.append('}\nroot_type P;\n')
+        decls.append('}\nroot_type P;\nfile_identifier "ABCD";\n')
         d = os.path.join(ctx.bdir, 'typed%d' % si); os.makedirs(d, exist_ok=True)
         fbs = os.path.join(d, 'tr.fbs'); open(fbs, 'w').write(''.join(decls))
         rc, out = ctx.gen(fbs, d, opts=('-a',))
